@@ -408,6 +408,9 @@ def mk_not(t):
     if t[0] == 'cmp' and t[1] in ('<', '<='):
         # not (a<b)  ==  b<=a   (total orders only: crysp compares ints)
         return ('cmp', '<=' if t[1] == '<' else '<', t[3], t[2])
+    if t[0] in ('and', 'or'):
+        # De Morgan (exact, also as values: both sides yield a bool decided by the same operand in the same order)
+        return mk_bool('or' if t[0] == 'and' else 'and', [mk_not(x) for x in t[1]])
     return ('not', t)
 
 
@@ -458,6 +461,8 @@ def canon_cond(c):
         return c2, not f
     if c[0] == 'cmp' and c[1] == '<=':
         return ('cmp', '<', c[3], c[2]), True
+    if c[0] == 'or':
+        return mk_not(c), True       # a disjunction is tested through its De Morgan dual
     return c, False
 
 
@@ -474,6 +479,11 @@ def mk_ite(c, a, b):
 
 
 def mk_slice(lo, hi, st):
+    # x[0:n] is x[:n] and x[a:b:1] is x[a:b] for every sequence type
+    if st == C(1):
+        st = NONE
+    if lo == C(0) and (st == NONE or (is_int(st) and st[1] > 0)):
+        lo = NONE
     return ('slice', lo, hi, st)
 
 
@@ -481,6 +491,10 @@ def _distinct_idx(i, j):
     """definitely different constant indices?"""
     if is_c(i) and is_c(j):
         return i != j
+    if i[0] == 'slice' and i[1] == NONE:
+        i = ('slice', C(0), i[2], i[3])
+    if j[0] == 'slice' and j[1] == NONE:
+        j = ('slice', C(0), j[2], j[3])
     if i[0] == 'slice' and j[0] == 'slice' and all(is_int(x) for x in i[1:3] + j[1:3]) \
             and i[3] in (NONE, C(1)) and j[3] in (NONE, C(1)):
         a0, a1, b0, b1 = i[1][1], i[2][1], j[1][1], j[2][1]
@@ -1318,9 +1332,9 @@ class PE:
             if a is None and b is None:
                 continue
             if a is None:
-                a = ('unbound', k)
+                a = ('unbound', '?')
             if b is None:
-                b = ('unbound', k)
+                b = ('unbound', '?')
             env[k] = a if a == b else mk_ite(c, a, b)
         for k in list(env):
             if k not in keys:
@@ -1500,7 +1514,7 @@ class PE:
         save = (self.nloops, self.ntry, len(self.sm.funcs), list(self.sm.undefined))
         env_first = dict(env2)
         self.exec_block(s.body, env2, body_eff)
-        nexts = tuple(env2.get(v, ('unbound', v)) for v in carried)
+        nexts = tuple(env2.get(v, ('unbound', '?')) for v in carried)
         # induction variables: v' = v + k (k loop-invariant constant) over range(a, b, st) -> closed form
         if kind == 'for' and it[0] == 'range' and is_int(it[1]) and is_int(it[3]) and it[3][1] != 0 and isinstance(s.target, ast.Name):
             ivs = {}
@@ -1559,7 +1573,7 @@ class PE:
                 iv_after = {v: env2[v] for v in ivs}
                 carried = carried2
                 inits = tuple(env[v] for v in carried)
-                nexts = tuple(env2.get(v, ('unbound', v)) for v in carried)
+                nexts = tuple(env2.get(v, ('unbound', '?')) for v in carried)
                 for v in ivs:
                     env[v] = iv_after[v]
         else_eff = []
@@ -1610,7 +1624,7 @@ class PE:
             # anything the body may have assigned is uncertain in a handler
             for v in self.assigned_names(s.body):
                 if eb.get(v) != pre.get(v):
-                    eh[v] = ('tryany', T, v if v not in pre else 0, pre.get(v, ('unbound', v)), eb.get(v, ('unbound', v)))
+                    eh[v] = ('tryany', T, 1 if v not in pre else 0, pre.get(v, ('unbound', '?')), eb.get(v, ('unbound', '?')))
             if h.name:
                 eh[h.name] = ('exc', T)
             fh = []
@@ -1623,7 +1637,7 @@ class PE:
             keys |= set(b[1])
         if live:
             for k in keys:
-                vals = [b[1].get(k, ('unbound', k)) for b in live]
+                vals = [b[1].get(k, ('unbound', '?')) for b in live]
                 if all(v == vals[0] for v in vals):
                     env[k] = vals[0]
                 else:
